@@ -8,6 +8,7 @@ import (
 	"bufio"
 	"bytes"
 	stdgzip "compress/gzip"
+	"encoding/hex"
 	"encoding/json"
 	"fmt"
 	"io"
@@ -104,7 +105,10 @@ func (c c20Corrupt) apply(enc []byte) []byte {
 }
 
 type c20Op struct {
-	K    string     `json:"k"` // rt: Decode(Encode(x)) == x | bad: decode a corrupted encoding of x
+	// rt: Decode(Encode(x)) == x | bad: decode a corrupted encoding of x |
+	// ext: Decode(src) == x for a stream `Src` made by the Lean reference encoder
+	K    string     `json:"k"`
+	Src  string     `json:"src,omitempty"`
 	In   c20Input   `json:"in"`
 	EDst string     `json:"edst"`
 	DDst string     `json:"ddst"`
@@ -133,6 +137,8 @@ type c20OpResult struct {
 	Status string `json:"s"` // ok | err | panic | ok-same | ok-diff
 	Err    string `json:"e,omitempty"`
 	EncLen int    `json:"el,omitempty"`
+	// snappy / lz4: the encoder's output (hex), for the Lean spec decoders
+	Enc string `json:"x,omitempty"`
 	// lz4 grow loop (L2): cap of the dst handed to Decode, cap of the slice it returned
 	DstCap int `json:"dc,omitempty"`
 	OutCap int `json:"oc,omitempty"`
@@ -159,6 +165,9 @@ func c20NewCodec(name string, level int) compress.Codec {
 		}
 		return &uncompressed.Codec{}
 	case "gzip":
+		if level >= 1000 {
+			return &gzip.Codec{Level: 10} // configuration probe: not a gzip level
+		}
 		lv := []int{gzip.DefaultCompression, gzip.BestSpeed, gzip.BestCompression, gzip.NoCompression, gzip.HuffmanOnly, 5}
 		return &gzip.Codec{Level: lv[level%len(lv)]}
 	case "brotli":
@@ -166,6 +175,9 @@ func c20NewCodec(name string, level int) compress.Codec {
 		lg := []int{0, 0, 18, 0, 22}
 		return &brotli.Codec{Quality: q[level%len(q)], LGWin: lg[level%len(lg)]}
 	case "zstd":
+		if level >= 1000 {
+			return &zstd.Codec{Level: 99} // configuration probe: not a zstd level
+		}
 		lv := []zstd.Level{0, zstd.SpeedFastest, zstd.SpeedDefault, zstd.SpeedBetterCompression, zstd.SpeedBestCompression}
 		return &zstd.Codec{Level: lv[level%len(lv)], Concurrency: uint(level % 3)}
 	case "lz4":
@@ -346,6 +358,25 @@ func (e *c20Exec) runOps(which []int) {
 		e.progress(i)
 		x := op.In.Bytes()
 		r := &e.res[i]
+		if op.K == "ext" {
+			src, _ := hex.DecodeString(op.Src)
+			ddst := c20Dst(op.DDst, len(x), &prev)
+			got, err, pan := c20Safe(func() ([]byte, error) { return e.codec.Decode(ddst, src) })
+			switch {
+			case pan != "":
+				r.Status, r.Err = "panic", pan
+				e.find(i, "panic", "Decode of a stream from the Lean reference encoder panics: "+pan)
+			case err != nil:
+				r.Status, r.Err = "err", err.Error()
+				e.find(i, "refenc-mismatch", "Decode rejects a stream from the Lean reference encoder (proved decodable by the spec decoder): "+err.Error())
+			case !bytes.Equal(got, x):
+				r.Status = "mismatch"
+				e.find(i, "refenc-mismatch", "Decode of a stream from the Lean reference encoder: "+c20FirstDiff(got, x))
+			default:
+				r.Status = "ok"
+			}
+			continue
+		}
 		// ---- Encode
 		encHint := len(x) + len(x)/8 + 64
 		edst := c20Dst(op.EDst, encHint, &prev)
@@ -398,6 +429,9 @@ func (e *c20Exec) runOps(which []int) {
 		default:
 			r.Status = "ok"
 			r.OutCap = cap(dec)
+			if (e.sc.Codec == "snappy" || e.sc.Codec == "lz4") && len(enc) <= 70000 {
+				r.Enc = hex.EncodeToString(enc)
+			}
 		}
 		if !bytes.Equal(enc, encCopy) {
 			e.find(i, "earlier-output-modified", "Decode changed its src")
